@@ -72,6 +72,18 @@ def build(case):
         pop.set_parameter_names(None)
         pop.set_dim_names(['dd%d' % i for i in range(pop.n_dim())])
         pop.set_dim_names(None)
+    if case.get('used_before'):
+        # the same population model object served a hierarchical log-likelihood of
+        # another number of individuals before
+        k = case['used_before']
+        lls_k = build_likelihoods(dict(case, data=[case['data'][0]] * k,
+                                       ids=None))
+        cov_k = None if case['cov'] is None else np.array(
+            [case['cov'][0]] * k) + 0.1
+        try:
+            chi.HierarchicalLogLikelihood(lls_k, pop, cov_k)
+        except Exception:
+            pass
     cov = None if case['cov'] is None else np.array(case['cov'])
     if cov is None and case.get('extra_cov'):
         # covariates are handed over although the population model uses none
